@@ -131,6 +131,10 @@ func pInt(x *Exec, fn *ssa.Function, a []Value) Value {
 func pIntRange(x *Exec, fn *ssa.Function, a []Value) Value {
 	v := pInt(x, fn, a).(*Term)
 	lo, hi := asTerm(a[1]), asTerm(a[2])
+	if lo.IsConst() && hi.IsConst() {
+		in := &x.inputs[len(x.inputs)-1]
+		in.HasRange, in.Lo, in.Hi = true, lo.Int64(), hi.Int64()
+	}
 	x.addPC(And(Sle(lo, v), Sle(v, hi)))
 	if lo.IsConst() && hi.IsConst() && lo.Int64() >= 0 && hi.Int64() >= 0 && hi.Val.BitLen() < 63 {
 		// give the term a tight bit-length bound: v = zext(low bits)
